@@ -945,8 +945,14 @@ func (g *gen) behC12() M {
 	}
 	cfg["params"] = params
 	steps := []any{}
+	if g.chance(0.08) {
+		steps = append(steps, send(M{"t": "GSSENC"})) // libpq with gssencmode=prefer asks for GSS encryption first
+	}
 	if g.chance(0.2) {
 		steps = append(steps, send(M{"t": "SSLRequest"}))
+		if g.chance(0.2) {
+			steps = append(steps, send(M{"t": g.pick("SSLRequest", "GSSENC")}))
+		}
 	}
 	if g.chance(0.1) {
 		steps = append(steps, send(M{"t": "Cancel"}))
